@@ -18,7 +18,9 @@ TRUSTED = ["theorems equilibrium_solves_augmented and zero_residual_minimiser_un
            "(2 |E T| + eps_res) / sigma_min(augmented matrix), eps_res = residual left by the back-end at termination (1e-9 exact / nnls, "
            "1e-6 lmfit, 1e-4 scipy lsq_linear); independently the reported tensions must fit the assembled equations as well as the true ones"]
 ASSUMPTIONS = ["Maxwell reciprocity: a Voronoi diagram balances under tension = site distance; Moebius maps preserve the angles at junctions"]
-TESTED_NOT_PROVED = ["the end-to-end recovery is evaluated on every generated tissue; the composition of C02/C05 with the two algebraic theorems is not mechanised"]
+TESTED_NOT_PROVED = ["the end-to-end recovery on floating-point data is evaluated on every generated tissue; over the rationals the chain is mechanised: assembled rows applied to T are the junction resultants "
+                     "(C01_junction_rows_are_resultants), balanced tensions are in the kernel (C01_balanced_tensions_in_kernel), (T/mean T, 0) solves the augmented system, an injective system has one minimiser; "
+                     "that the fitted versors are the true tangents (circle-fit accuracy) and that the solver reaches the minimiser are numerical facts measured per case"]
 IMPORTS = "From Forsys Require Import Model.CaseUtil.\n"
 
 
